@@ -452,6 +452,25 @@ class FnTranslator:
             return ("(%s %s)" % (o["exp"], x), "num")
         if f == "float" and len(args) == 1 and isinstance(args[0], ast.Constant) and args[0].value == "inf":
             self.err(node, "float('inf')")
+        if f == "float" and len(args) == 1 and not node.keywords and not isinstance(args[0], ast.Constant):
+            # (additive, C07) float(<numeric expression>) is the identity on the carriers
+            (x,) = nums(args)
+            return (x, "num")
+        if f == "np.clip":
+            # (additive, C07) scalar np.clip(x, a_min, a_max) = minimum(maximum(x, a_min), a_max)
+            kw = {k.arg: k.value for k in node.keywords}
+            pos = list(args)
+            names = ["a", "a_min", "a_max"]
+            vals = {}
+            for nm, a in zip(names, pos):
+                vals[nm] = a
+            for nm in names:
+                if nm in kw:
+                    vals[nm] = kw[nm]
+            if set(vals) != set(names) or len(pos) + len(kw) != 3:
+                self.err(node, "np.clip needs exactly a, a_min, a_max")
+            x, lo, hi = nums([vals["a"], vals["a_min"], vals["a_max"]])
+            return ("(%s (%s %s %s) %s)" % (o["min"], o["max"], x, lo, hi), "num")
         if f == "np.isclose":
             kw = {k.arg: k.value for k in node.keywords}
             if len(args) != 2:
